@@ -244,7 +244,21 @@ pub fn run(tier: &str, seed: u64, only: Option<&str>) -> Run {
                 cspec.worst = true;
                 cspec.n100 = None;
             }
-            let crepro = format!("convert osu->{} settings={} spec={cspec:?} map=<<\n{otext}>>", mode_name(mode), settings.describe());
+            // conversion-relevant mods: for mania converts add a key mod half of the time (the
+            // converter reads it; every entry point must convert with the builder's final mods)
+            let mut csettings = settings.clone();
+            if mode == 3 && round % 2 == 0 {
+                if let crate::common::ModsSpec::Bits(b) = csettings.mods {
+                    let key = *rng.pick(&[1u32 << 15, 1 << 16, 1 << 17, 1 << 18, 1 << 19, 1 << 24, 1 << 26, 1 << 27, 1 << 28]);
+                    csettings.mods = crate::common::ModsSpec::Bits((b & !0x0B0F_8000) | key);
+                    run.count("convert-with-key-mod");
+                }
+            }
+            let mut difficulty: Difficulty = csettings.build(mode);
+            if let Some(n) = passed {
+                difficulty = difficulty.passed_objects(n);
+            }
+            let crepro = format!("convert osu->{} settings={} passed={passed:?} spec={cspec:?} map=<<\n{otext}>>", mode_name(mode), csettings.describe());
             let Ok(cattrs) = one_shot(&difficulty, &omap, gm) else { break };
             let via_attrs = guarded(|| format!("{:?}", cspec.apply(Performance::new(cattrs.clone()).difficulty(difficulty.clone())).calculate()));
             let via_map = guarded(|| {
@@ -255,6 +269,46 @@ pub fn run(tier: &str, seed: u64, only: Option<&str>) -> Run {
                     .map_err(|_| "refused".to_owned())
             });
             run.count("convert-entry-points");
+            // every other way to build a calculator for the target mode from the osu! map: the settings
+            // (mods!) arrive only after construction, so nothing may be decided at construction time
+            if let Ok(reference) = &via_attrs {
+                let fin = |p: Performance<'_>| format!("{:?}", cspec.apply(p.difficulty(difficulty.clone())).calculate());
+                let mut others: Vec<(&str, Result<String, String>)> = Vec::new();
+                others.push(("Performance::new(owned map).try_mode", guarded(|| {
+                    cspec.apply(Performance::new(omap.clone()).difficulty(difficulty.clone())).try_mode(gm).map(|p| format!("{:?}", p.calculate())).unwrap_or_else(|_| "refused".to_owned())
+                })));
+                others.push(("Performance::new(&map).mode_or_ignore", guarded(|| {
+                    format!("{:?}", cspec.apply(Performance::new(&omap).difficulty(difficulty.clone())).mode_or_ignore(gm).calculate())
+                })));
+                // (not compared: `try_mode` BEFORE the settings — it converts eagerly with the mods the
+                // builder has at that moment, which is its documented job; only constructors defer)
+                match gm {
+                    rosu_pp::model::mode::GameMode::Taiko => {
+                        others.push(("TaikoPerformance::new(&map)", guarded(|| fin(Performance::Taiko(TaikoPerformance::new(&omap))))));
+                        others.push(("TaikoPerformance::new(owned map)", guarded(|| fin(Performance::Taiko(TaikoPerformance::new(omap.clone()))))));
+                        others.push(("TaikoPerformance::from(owned map)", guarded(|| fin(Performance::Taiko(TaikoPerformance::from(omap.clone()))))));
+                    }
+                    rosu_pp::model::mode::GameMode::Catch => {
+                        others.push(("CatchPerformance::new(&map)", guarded(|| fin(Performance::Catch(CatchPerformance::new(&omap))))));
+                        others.push(("CatchPerformance::new(owned map)", guarded(|| fin(Performance::Catch(CatchPerformance::new(omap.clone()))))));
+                        others.push(("CatchPerformance::from(owned map)", guarded(|| fin(Performance::Catch(CatchPerformance::from(omap.clone()))))));
+                    }
+                    rosu_pp::model::mode::GameMode::Mania => {
+                        others.push(("ManiaPerformance::new(&map)", guarded(|| fin(Performance::Mania(ManiaPerformance::new(&omap))))));
+                        others.push(("ManiaPerformance::new(owned map)", guarded(|| fin(Performance::Mania(ManiaPerformance::new(omap.clone()))))));
+                        others.push(("ManiaPerformance::from(owned map)", guarded(|| fin(Performance::Mania(ManiaPerformance::from(omap.clone()))))));
+                    }
+                    rosu_pp::model::mode::GameMode::Osu => {}
+                }
+                for (name, r) in others {
+                    run.count("convert-entry-points");
+                    match r {
+                        Ok(v) if &v == reference => {}
+                        Ok(v) => run.fail("oracle:convert-entry-point-differs", "", &id, format!("{name}: {v}\nfrom attributes: {reference}"), crepro.clone()),
+                        Err(e) => run.fail("oracle:convert-entry-point-panic", "", &id, format!("{name}: {e}"), crepro.clone()),
+                    }
+                }
+            }
             match (via_attrs, via_map) {
                 (Ok(a), Ok(Ok(b))) if a == b => {}
                 (Ok(a), Ok(Ok(b))) => run.fail(
